@@ -26,6 +26,8 @@ pub trait Route: Sized + Default {
 
     /// Matches a route with the given path.
     fn match_path(&self, path: &str) -> Self {
+        // The query string and the fragment are not part of the path (they may contain `/`).
+        let path = path.split(['?', '#']).next().unwrap_or(path);
         let segments = path
             .split('/')
             .filter(|s| !s.is_empty())
